@@ -76,6 +76,12 @@ M measure_of(const std::string& n) {
         {"gas_formation_volume_factor", M::gas_formation_volume_factor},
         {"oil_formation_volume_factor", M::oil_formation_volume_factor},
         {"energy", M::energy}, {"polymer_density", M::polymer_density}, {"salinity", M::salinity},
+        {"water_formation_volume_factor", M::water_formation_volume_factor},
+        {"gas_inverse_formation_volume_factor", M::gas_inverse_formation_volume_factor},
+        {"oil_inverse_formation_volume_factor", M::oil_inverse_formation_volume_factor},
+        {"water_inverse_formation_volume_factor", M::water_inverse_formation_volume_factor},
+        {"liquid_productivity_index", M::liquid_productivity_index}, {"gas_productivity_index", M::gas_productivity_index},
+        {"geometric_volume_rate", M::geometric_volume_rate}, {"energy_rate", M::energy_rate}, {"moles", M::moles},
     };
     auto it = tab.find(n);
     if (it == tab.end()) throw BadRequest("unknown measure " + n);
@@ -407,18 +413,25 @@ std::unique_ptr<BaseRun> run_base(const cJSON* req) {
 
     Opm::out::Summary summary(*b.smcfg, *b.es, b.es->getInputGrid(), *b.sched, jstr(req, "base", "BASE"));
     const bool udq_eval = jbool(req, "udq_eval", true);
+    // like a simulator: the UDQs are evaluated at the end of EVERY report step 1..n (an ASSIGN is pending only in the
+    // configuration of the step that holds it); the summary state is evaluated at the steps the request lists
+    const auto& es = *b.es;
+    auto eval_udq = [&](int rs) {
+        if (!udq_eval) return;
+        b.sched->getUDQConfig(rs - 1).eval(rs, b.sched->wellMatcher(rs), b.sched->segmentMatcherFactory(rs),
+                                          [&es]() { return std::make_unique<Opm::RegionSetMatcher>(es.fipRegionStatistics()); },
+                                          run->st, run->udq);
+    };
+    int last_udq = 0;
     jforeach(jget(req, "evals"), [&](const cJSON* e) {
         const int rs = (int)jint(e, "report_step");
         const double el = jdouble(e, "elapsed");
+        for (int k = last_udq + 1; k < rs; ++k) eval_udq(k);
         run->wells = read_wells(jget(e, "wells"));
         run->grp = read_groups(e);
         summary.eval(run->st, rs, el, run->wells, {}, run->grp, {}, {}, {});
-        if (udq_eval) {
-            const auto& es = *b.es;
-            b.sched->getUDQConfig(rs - 1).eval(rs, b.sched->wellMatcher(rs), b.sched->segmentMatcherFactory(rs),
-                                              [&es]() { return std::make_unique<Opm::RegionSetMatcher>(es.fipRegionStatistics()); },
-                                              run->st, run->udq);
-        }
+        eval_udq(rs);
+        last_udq = rs;
         run->elapsed = el;
     });
     if (jhas(req, "action_runs")) jforeach(jget(req, "action_runs"), [&](const cJSON* a) {
@@ -449,7 +462,19 @@ Opm::RestartValue make_value(const cJSON* req, const BaseRun& run) {
 
 // write the restart file for report step run.step; via == "save": RestartIO::save on an OutputStream::Restart,
 // via == "eclipseio": EclipseIO::writeTimeStep (needs RPTRST BASIC=2 in the deck)
-void write_restart(const cJSON* req, BaseRun& run, JW& out) {
+void write_restart_impl(const cJSON* req, BaseRun& run, JW& out);
+// returns false (and reports {"save_error": what}) when the library throws while writing
+bool write_restart(const cJSON* req, BaseRun& run, JW& out) {
+    try {
+        write_restart_impl(req, run, out);
+        return true;
+    } catch (const std::exception& e) {
+        out.key("save_error").obj().kv_s("what", e.what()).end_obj();
+        return false;
+    }
+}
+
+void write_restart_impl(const cJSON* req, BaseRun& run, JW& out) {
     auto& b = run.b;
     const bool write_double = jbool(req, "write_double", false);
     const std::string via = jstr(req, "via", "save");
@@ -478,7 +503,6 @@ std::vector<Opm::RestartKey> read_keys(const cJSON* a) {
 
 void structure(const Opm::Schedule& sched, const Opm::EclipseState& es, int sim_step, JW& out) {
     const auto& st = sched[sim_step];
-    out.kv_i("nsteps", sched.size());
     out.kv_i("nactive", es.getInputGrid().getNumActive());
     out.kv_i("ncells", es.getInputGrid().getCartesianSize());
     const auto& ph = es.runspec().phases();
@@ -539,13 +563,15 @@ void structure(const Opm::Schedule& sched, const Opm::EclipseState& es, int sim_
 // {cmd:rst_info, text, step} -> what exists at sim_step = step-1 (the state a restart file of report step `step` describes)
 PROBE_CMD(rst_info) {
     auto b = build_base(jstr(req, "text"));
-    const int step = (int)jint(req, "step", 1);
-    if (step < 1 || (std::size_t)step >= b.sched->size()) {
-        out.kv_i("nsteps", b.sched->size());
-        out.kv_b("bad_step", true);
-        return;
+    out.kv_i("nsteps", b.sched->size());
+    out.key("structs").arr();
+    for (int step : jints(jget(req, "steps"))) {
+        if (step < 1 || (std::size_t)step >= b.sched->size()) { out.null(); continue; }
+        out.obj();
+        structure(*b.sched, *b.es, step - 1, out);
+        out.end_obj();
     }
-    structure(*b.sched, *b.es, step - 1, out);
+    out.end_arr();
 }
 
 // half A: {text, rst_text, dir, base, step, evals, solution, extra, write_double, via, udq_eval, action_runs,
@@ -559,14 +585,20 @@ PROBE_CMD(rst_roundtrip) {
     out.key("udq"); dump_udq_state(run->udq, (*b.sched)[n - 1].udq(), (*b.sched)[n - 1], out);
     out.key("actions"); dump_action_state(run->actions, (*b.sched)[n - 1].actions(), (*b.sched)[n - 1], out);
     out.end_obj();
-    write_restart(req, *run, out);
+    if (!write_restart(req, *run, out)) return;
 
+    // the restarted side: an exception here is an observation (the library could not continue from its own file)
+    JW sub;
+    std::string phase = "build";
+    try {
+        auto& out = sub;
     auto r = build_restarted(jstr(req, "rst_text"), true);
     Opm::SummaryState st2(Opm::TimeService::from_time_t(r.sched->getStartTime()), r.es->runspec().udqParams().undefinedValue());
     Opm::Action::State as2;
     const auto keys = read_keys(jget(req, "load_keys"));
     const auto xkeys = jhas(req, "load_extra") ? read_keys(jget(req, "load_extra")) : std::vector<Opm::RestartKey>{};
     Opm::RestartValue rv;
+    phase = "load";
     if (jstr(req, "load_via", "load") == "eclipseio") {
         r.es->getIOConfig().setOutputDir(jstr(req, "dir") + "/rst_out");
         std::filesystem::create_directories(jstr(req, "dir") + "/rst_out");
@@ -577,10 +609,12 @@ PROBE_CMD(rst_roundtrip) {
         const auto fname = r.es->getIOConfig().getRestartFileName(init.getRestartRootName(), init.getRestartStep(), false);
         rv = Opm::RestartIO::load(fname, init.getRestartStep(), as2, st2, keys, *r.es, r.es->getInputGrid(), *r.sched, xkeys);
     }
+    phase = "load_rst";
     Opm::UDQState us2(r.es->runspec().udqParams().undefinedValue());
     us2.load_rst(*r.rst);
     as2.load_rst((*r.sched)[n - 1].actions(), *r.rst);
 
+    phase = "dump";
     out.key("loaded").obj();
     out.key("solution"); dump_solution(rv.solution, out);
     out.key("extra").obj();
@@ -596,6 +630,11 @@ PROBE_CMD(rst_roundtrip) {
     out.key("actions"); dump_action_state(as2, (*r.sched)[n - 1].actions(), (*r.sched)[n - 1], out);
     out.kv_i("rst_report_step", r.rst->header.report_step);
     out.end_obj();
+    } catch (const std::exception& e) {
+        out.key("rst_error").obj().kv_s("phase", phase).kv_s("what", e.what()).end_obj();
+        return;
+    }
+    out.raw(sub.s.substr(0));
 }
 
 // half B: same base run and file; then RstState::load + Schedule(deck+RESTART, ..., &rst_state); dumps of the
@@ -603,10 +642,9 @@ PROBE_CMD(rst_roundtrip) {
 PROBE_CMD(rst_sched) {
     auto run = run_base(req);
     auto& b = run->b;
-    write_restart(req, *run, out);
-    auto r = build_restarted(jstr(req, "rst_text"), true);
-    out.kv_i("base_nsteps", b.sched->size()).kv_i("rst_nsteps", r.sched->size());
+    if (!write_restart(req, *run, out)) return;
     std::vector<int> steps = jints(jget(req, "steps"));
+    out.kv_i("base_nsteps", b.sched->size());
     // both dumps evaluate UDA-controlled limits against the SAME summary state (the base run's)
     out.key("base").arr();
     for (int s : steps) {
@@ -614,16 +652,27 @@ PROBE_CMD(rst_sched) {
         rst_dump_state(*b.sched, s, run->st, out);
     }
     out.end_arr();
-    out.key("rst").arr();
-    for (int s : steps) {
-        if (s < 0 || (std::size_t)s >= r.sched->size()) { out.null(); continue; }
-        rst_dump_state(*r.sched, s, run->st, out);
-    }
-    out.end_arr();
     out.key("seconds_base").arr();
     for (std::size_t i = 0; i < b.sched->size(); ++i) out.d(b.sched->seconds(i));
     out.end_arr();
-    out.key("seconds_rst").arr();
-    for (std::size_t i = 0; i < r.sched->size(); ++i) out.d(r.sched->seconds(i));
-    out.end_arr();
+    JW sub;
+    std::string phase = "build";
+    try {
+        auto r = build_restarted(jstr(req, "rst_text"), true);
+        phase = "dump";
+        sub.kv_i("rst_nsteps", r.sched->size());
+        sub.key("rst").arr();
+        for (int s : steps) {
+            if (s < 0 || (std::size_t)s >= r.sched->size()) { sub.null(); continue; }
+            rst_dump_state(*r.sched, s, run->st, sub);
+        }
+        sub.end_arr();
+        sub.key("seconds_rst").arr();
+        for (std::size_t i = 0; i < r.sched->size(); ++i) sub.d(r.sched->seconds(i));
+        sub.end_arr();
+    } catch (const std::exception& e) {
+        out.key("rst_error").obj().kv_s("phase", phase).kv_s("what", e.what()).end_obj();
+        return;
+    }
+    out.raw(sub.s);
 }
